@@ -578,10 +578,47 @@ class LoudBool(eqlgen.P):
         return True
 
 
-CTOR_KINDS = ["sf_iter", "sf_iter", "pred_iter", "lit_lazy", "let_iterable", "index_key", "single_obj"]
-# finding class of the scenario kinds that were findings C10-e..h (fixed in 6854387 / 7eaaf64 / c877039 / a768d6e: every kind must be silent now;
+class LoudLabel:
+    """a plain user object whose __str__ / __repr__ is user code: [6,8]"""
+
+    def __str__(self):
+        LOG.append([6, 8])
+        return "label"
+
+    __repr__ = __str__
+
+
+class LazyList(list):
+    """a list SUBCLASS whose __iter__ is user code: [5,3]"""
+
+    def __iter__(self):
+        LOG.append([5, 3])
+        return list.__iter__(self)
+
+
+class LazyRecord:
+    """an object with a catch-all __getattr__ (a lazily loading record): [8,0] whenever an unknown attribute is asked for"""
+
+    def __init__(self, **data):
+        self.__dict__["_data"] = data
+
+    def __getattr__(self, name):
+        LOG.append([8, 0])
+        try:
+            return self._data[name]
+        except KeyError:
+            raise AttributeError(name)
+
+
+CTOR_KINDS = ["sf_iter", "sf_iter", "pred_iter", "lit_lazy", "let_iterable", "index_key", "single_obj", "rule_add", "lit_subclass", "getattr_obj"]
+# finding class of the scenario kinds that were findings C10-e..k (fixed in 6854387 / 7eaaf64 / c877039 / a768d6e / aa6a17a / 49f8cc9 / 628ff00: every kind
+# must be silent now;
 # the class and the recorded eager log [ctor_expected] are kept so that a re-opened finding would be matched narrowly)
-CTOR_FINDING = {"lit_lazy": "K_lazyliteral", "let_iterable": "K_letiter", "index_key": "K_indexstr", "single_obj": "K_singlebool"}
+CTOR_FINDING = {"lit_lazy": "K_lazyliteral", "let_iterable": "K_letiter", "index_key": "K_indexstr", "single_obj": "K_singlebool",
+                "rule_add": "K_rulestr", "lit_subclass": "K_litsubclass", "getattr_obj": "K_getattr"}
+
+
+CTOR_GETATTR_LOG = {"eq": [[8, 0]], "single": [[8, 0], [8, 0]]}     # recorded on bd78722: is_iterable asks the INSTANCE for __iter__
 
 
 def gen_ctor_scenario(rng) -> dict:
@@ -592,6 +629,10 @@ def gen_ctor_scenario(rng) -> dict:
         sc["style"] = rng.choice(["positional", "kw_coll_first", "kw_var_first", "mixed"])
     elif kind == "lit_lazy":
         sc["op"] = rng.choice(["in_", "contains", "flatten", "eq", "not_"])
+    elif kind == "lit_subclass":
+        sc["op"] = rng.choice(["in_", "contains", "eq"])
+    elif kind == "getattr_obj":
+        sc["op"] = rng.choice(["eq", "single"])
     return sc
 
 
@@ -607,6 +648,12 @@ def ctor_expected(sc) -> list:
         return [[6, 7]]
     if k == "single_obj":
         return [[4, 9]]
+    if k == "rule_add":
+        return [[6, 8]]
+    if k == "lit_subclass":
+        return [[5, 3]]
+    if k == "getattr_obj":
+        return CTOR_GETATTR_LOG[sc["op"]]
     return []
 
 
@@ -643,6 +690,24 @@ def run_ctor(sc) -> Dict[str, Any]:
             del LOG[:]
             p = let(eqlgen.P, logged_domain(1, objs), name="p")
             q = an(entity(p, p.items[LoudKey(7)] >= 0))
+        elif k == "rule_add":
+            from krrood.entity_query_language.conclusion import Add
+            labels = let(LoudLabel, [], name="labels")
+            q = an(entity(labels, x >= 0))
+            with q:
+                Add(labels, LoudLabel())
+        elif k == "lit_subclass":
+            coll = LazyList(sc["items"])
+            op = sc["op"]
+            c = in_(x, coll) if op == "in_" else contains(coll, x) if op == "contains" else (x == coll)
+            q = an(entity(x, c))
+        elif k == "getattr_obj":
+            rec = LazyRecord(n=1)
+            if sc["op"] == "eq":
+                q = an(entity(x, x == rec))
+            else:
+                r = let(LazyRecord, rec, name="r")
+                q = an(entity(x, x >= 0))
         else:
             o = LoudBool(9, 0, 0, [])
             p = let(eqlgen.P, o, name="p")
